@@ -21,6 +21,9 @@ func init() {
 	runner.Register("C05", runner.Scenario{Name: "batch-stall", Options: func(string) simrt.Options {
 		return simrt.Options{MaxSteps: 60000, RotateMaps: true, StallPermille: 40, StallMax: 4 * time.Millisecond}
 	}, Body: func(c *runner.Ctx) { batchBody(c) }})
+	runner.Register("C05", runner.Scenario{Name: "batch-preempt", Options: func(string) simrt.Options {
+		return simrt.Options{MaxSteps: 60000, RotateMaps: true, ParkPermille: 15}
+	}, Body: func(c *runner.Ctx) { batchBody(c) }})
 }
 
 // arg is the unique argument of one Invoke call.
